@@ -1,5 +1,6 @@
 """C04 -- a composite behaves like an array of its units (SH1, S1, RO, U1)."""
 from ..rules import numpy_rules as NP
+from ..rules import dtype_rules as DT
 from ..rules import proj_rules as P
 from ..rules import cache_rules as CA
 from ..rules import shape_rules as S
@@ -38,6 +39,9 @@ def run(ctx):
     ctx.do(S.rule_sh7)
     ctx.do(CA.rule_c2, "ProjectiveObject", scope=ctx.scope(ENTRIES + GEOMETRY))
     ctx.do(SI.rule_mean1, [SI.HYP], min_sites=3)
+    # stacking a list of objects must keep every member's values: no buffer
+    # typed like one member and filled with the others
+    ctx.do(DT.rule_lk1, [PROJ], scope=ctx.scope(ENTRIES))
     ctx.do(S.rule_ax1, [CORE, "geometry_tools/hyperbolic.py", PROJ])
     ctx.do(NP.rule_mk2, [CORE, "geometry_tools/hyperbolic.py", PROJ, "geometry_tools/lie/core.py", "geometry_tools/complex_projective.py"])
     ctx.do(P.rule_s1, ops=[(PROJ, "ProjectiveObject.reshape"),
